@@ -89,6 +89,24 @@ func (it *tableInterp) val(v ssa.Value) tval {
 			return tval{isBool: true, b: !o.b}
 		}
 	case *ssa.BinOp:
+		if x.Op == token.EQL || x.Op == token.NEQ {
+			_, cx := constString(x.X)
+			_, cy := constString(x.Y)
+			if (cx || cy) && !(cx && cy) {
+				// comparison of a computed string with a constant: an atom of its own
+				id := it.atomID(x)
+				it.atoms[id] = true
+				if it.vals != nil {
+					if _, ok := it.vals[id]; !ok {
+						it.vals[id] = x
+					}
+				}
+				if e, ok := it.env[id]; ok {
+					return e
+				}
+				return tval{isBool: true}
+			}
+		}
 		a, b := it.val(x.X), it.val(x.Y)
 		eq := a.i == b.i
 		if a.isBool {
